@@ -161,6 +161,12 @@ fn main() {
             };
             std::process::exit(run_replay(p.as_ref(), std::path::Path::new(&args[3])));
         }
+        "h5e" => {
+            // debugging aid: the reference token stream (html5ever tokenizer + tree builder)
+            for t in refmodel::h5e::reference(&args[2]) {
+                println!("{t:?}");
+            }
+        }
         "run-scenario" => {
             // debugging aid: execute a scenario JSON (or replay file) and dump the history
             let s = std::fs::read_to_string(&args[2]).expect("read");
